@@ -4,7 +4,7 @@ import json, os, re, shutil
 import vlib
 
 KEEP = {"sess_start", "recv", "reject", "conn_add", "known_add", "established", "conn_del", "known_del", "sess_end",
-        "ru_self", "ru_seen", "ru_dupnotice", "ru_apply", "flood", "mk_update", "rebuild", "shutdown", "h_status", "seen_expire", "ad_local", "ad_withdraw", "ad_recv"}
+        "ru_self", "ru_seen", "ru_dupnotice", "ru_apply", "flood", "mk_update", "rebuild", "shutdown", "h_status", "seen_expire", "ad_send", "ad_local", "ad_withdraw", "ad_recv"}
 
 
 def _num(x, scale):
@@ -87,7 +87,7 @@ def normalise(raw_events):
                     walk_costs(e[k])
             if isinstance(e.get("cost"), float) and abs(e["cost"] - round(e["cost"])) > 1e-9:
                 scale = 1000
-        times = sorted({int(e["time"]) for e in evs if e.get("ev") in ("ad_local", "ad_withdraw", "ad_recv") and isinstance(e.get("time"), (int, float))})
+        times = sorted({int(e["time"]) for e in evs if e.get("ev") in ("ad_local", "ad_withdraw", "ad_recv", "ad_send") and isinstance(e.get("time"), (int, float))})
         trank = {v: i + 1 for i, v in enumerate(times)}
         eps.discard(0)
         ranks = {v: i + 1 for i, v in enumerate(sorted(eps))}
@@ -151,6 +151,8 @@ def normalise(raw_events):
                     out.append({"ev": ev, "id": e["id"]})
                 elif ev == "ad_local":
                     out.append({"ev": ev, "svc": e["svc"], "time": trank[int(e["time"])], "ctype": int(e.get("ctype", 0))})
+                elif ev == "ad_send":
+                    out.append({"ev": ev, "svc": e["svc"], "time": trank[int(e["time"])]})
                 elif ev == "ad_withdraw":
                     out.append({"ev": ev, "svc": e["svc"], "time": trank[int(e["time"])]})
                 elif ev == "ad_recv":
